@@ -3,6 +3,7 @@ import IpaVerif.Model.Dzkp
 import IpaVerif.Model.DzkpStore
 import IpaVerif.Model.DzkpBatch
 import IpaVerif.Model.DzkpValidator
+import IpaVerif.Model.DzkpAtomic
 import IpaVerif.Model.Batcher
 import IpaVerif.Generated.BatcherConsts
 /-! Line-protocol handlers for property C03 (model side) and the spec-side oracle. Import-free.
@@ -513,6 +514,21 @@ def vstoreOracle (rpbS totalS : String) (ops : List String) (impl : String) : Op
     pure "fails pushing the records of a batch in this order made the validator panic: an honest batch must be accepted whatever the order in which its records are pushed"
   else pure "fails the validator's tables are not the in-order tables of the pushed records (layout must be anchored at batch·records_per_batch, independent of the push order)"
 
+/-- `c03.race`, model side (b21): ONE helper, `k` concurrent `DZKPUpgraded::push` calls of `k` different records of one
+batch (one gate, one-bit segments with `x_left = 1`) through `DzkpAtomic.codeStep` (atomic or split, as the translator read
+the sources) under the round-robin schedule `0 … k-1, 0 … k-1` — every call gets its first step before any gets its second,
+the worst case for a read-modify-write. Every record's bit must be in the table (then the table is the in-order one,
+`concurrent_push_eq_sequential`, and the honest batch validates); a lost segment is a rejected honest batch. -/
+def raceModelOk (k : Nat) : Bool :=
+  let sg : IpaVerif.DzkpStore.Segment := { width := 1, xl := 1, xr := 0, yl := 0, yr := 0, pl := 0, pr := 0, zr := 1 }
+  let opOf : Nat → IpaVerif.DzkpAtomic.Op := fun i => ("a", i, sg)
+  let sched := List.range k ++ List.range k
+  match IpaVerif.DzkpAtomic.run (IpaVerif.DzkpAtomic.codeStep k opOf) (IpaVerif.DzkpAtomic.init (IpaVerif.DzkpValidator.Tables.new (max k 1))) sched with
+  | .ok s =>
+    s.done.length == k && (List.range k).all fun n =>
+      ((s.t.store 0 "a").map fun st => IpaVerif.DzkpStore.storeBit st.vec (·.xl) n).getD false
+  | .panic _ => false
+
 def handle (toks : List String) : Option String :=
   match toks with
   | ["c03.consts"] => some s!"{inverseOfTwo} {minusOneHalf} {minusTwo}"
@@ -560,6 +576,9 @@ def handle (toks : List String) : Option String :=
   | ["c03.vstore", rpb, total, ops] => some <| (do
       vstoreRun (← parseRpb rpb) (← parseTotalRecords total) (ops.splitOn ";")).getD "bad-request"
   | ["c03.order", ty, count, rpb, _gates, _seed, script] => some ((orderRun ty count rpb script).getD "bad-request")
+  | ["c03.race", _ty, t, r, _rpb, _gates, _seed] => do
+      let t ← t.toNat?; let r ← r.toNat?
+      pure ("validated=" ++ toString (if raceModelOk t then r else 0) ++ " rounds=" ++ toString r)
   | _ => none
 
 /-! ## spec side: plain arithmetic modulo p, Fermat inverses, bit formulas -/
@@ -712,6 +731,21 @@ def oracle (toks : List String) (impl : String) : Option String :=
   | ["c03.batch", _seed, _pi, us, vs, dev, _rho, _mp, _mq, _chs] => some ((batchOracle us vs dev impl).getD "unknown")
   | ["c03.vstore", rpb, total, ops] => some ((vstoreOracle rpb total (ops.splitOn ";") impl).getD "unknown")
   | ["c03.order", _ty, count, rpb, gates, _seed, script] => some ((orderOracle count rpb gates script impl).getD "unknown")
+  | ["c03.race", ty, t, r, rpb, gates, _seed] => do
+      -- spec: nobody deviates, so EVERY round's batch holds the in-order table and validates on all three helpers,
+      -- whatever the thread scheduling
+      let r ← r.toNat?
+      match (impl.splitOn " ").map (·.splitOn "=") with
+      | ["validated", n] :: ["rounds", r'] :: rest =>
+        let n ← n.toNat?; let r' ← r'.toNat?
+        if r' ≠ r then pure "fails malformed response" else
+        pure (if n == r && rest.isEmpty then "holds"
+          else "fails honest batch not accepted: only " ++ toString n ++ " of " ++ toString r ++ " honest batches (" ++ rpb ++
+            " records x " ++ gates ++ " gates of " ++ ty ++ " multiplications) held the in-order table and validated when " ++ t ++
+            " threads per helper push the intermediates of distinct records of the batch concurrently" ++
+            (match rest with | [["first", f]] => " (first failing round:helper:what = " ++ f ++ ")" | _ => "") ++
+            ": a pushed segment was lost or misplaced")
+      | _ => pure (if impl == "timeout" then "fails timeout" else "fails malformed response")
   | "c03.table" :: _ => some "unknown"
   | "c03.proof" :: _ => some "unknown"
   | _ => none
